@@ -21,6 +21,24 @@ CHECKS = {
  "C20": ("exploration", "runtime monitor: registry.Gather() and scrape text compared with exact big-integer sums over the observed results, concurrent observers under the Go race detector",
          "Sequences of 0..1e4 results over up to 100 label sets are observed sequentially and from 2..32 goroutines (also in a -race child); gathered counters, histogram count/sum/cumulative buckets and the failure counter per label set are compared with an exact reference; the scrape text of NewHandler is parsed independently and must agree.",
          "Sums compared at 1e-9 relative; bucket bounds taken from what is exported.", "5/C20"),
+ "C04": ("exploration", "runtime monitor: real-time attacks with adversarial recording pacers, oracle with lower bounds only over recorded Pace calls and transport entry instants",
+         "192 (quick) / 2016 (thorough) real attacks through the exported API with adversarial recording pacers (zero, constant, PRNG, deadline-straddling, negative waits, stop at call n), durations 1ns..50ms, workers/max in {1,2,8,64}, PRNG response latencies, slow consumer and external Stop, partly under -race. Checked on the recorded events: Pace calls strictly sequential with hits = 0,1,2,...; elapsed non-decreasing and bounded from both sides by instants the harness measured; the j-th earliest hit start >= the j-th release instant (Pace return + wait); at every transport entry started <= released; no Pace call with elapsed > duration; nothing after the pacer said stop; hits started = ticks released (minus at most one cut by Stop); the attack ends (deadlock decided on a quiescent goroutine dump).",
+         "Only lower bounds on time are asserted, so scheduling noise cannot raise an alarm; lateness is invisible by design.", "5/C04"),
+ "C05": ("exploration", "runtime monitor: ordering oracle over all results of free-running attacks (1..256 workers, 16 cores, plain and -race) plus the plot consumer",
+         "30 (quick) / 600 (thorough) attacks of 20000 hits at unlimited rate with workers=max in {1,2,4,16,64,256}, a targeter that spins right after the critical section, half of them under the race detector. Sorted by Seq the timestamps must be non-decreasing; every timestamp lies between the harness' reading before Attack and the request's transport entry; latency >= transport time >= 0; End = Timestamp+Latency; the same results in arrival and shuffled order must be accepted by plot.Add.",
+         "Monotonic clock readings are compared in-process. The interleavings are those the Go scheduler produces on 16 cores.", "5/C05"),
+ "C06": ("fault_enumeration", "runtime monitor: fake RoundTripper and monitored response bodies around the real Attack; full cross product of max-body class x status class x fault point plus PRNG exchanges judged by an independent model",
+         "Every cell of {max-body class} x {status class} x {fault point: none, transport error, redirect limit, body read error at k in {0,1,mid,len-1,len}} (305 feasible cells, all exercised, missing cell => inconclusive) plus 3000 (quick) / 200000 (thorough) PRNG exchanges with arbitrary methods, URLs, header sets (case, multiplicity, collisions with X-Vegeta-*, Host), bodies up to 64 KiB, chunked on/off, redirect chains against Redirects(n)/NoFollow. Request as seen by the transport, reads/Close on the response body and the Result fields are compared with an independent model of the property's clauses.",
+         "One worker per attack so that result i belongs to target i; net/http's own behaviours (Authorization from userinfo, redirect-hop bodies) are exempted and listed as assumptions in the evidence.", "5/C06"),
+ "C10": ("exploration", "runtime monitor: exact big-integer reference of the documented metric definitions vs Metrics after Close under permuted additions and interleaved Close calls; real `vegeta report`",
+         "1552 (quick) / 20659 (thorough) result multisets (sizes 0..1e5, equal/reversed/shuffled timestamps, zero and huge latencies, all status classes, duplicate errors) are added in 4/8 orders with Close before the first add, at PRNG positions, before every add and twice at the end; every final state, the JSON and text reporters and the real `vegeta report -type=json|text` (also with -every) must equal an exact math/big reference.",
+         "Floats at 1e-9 relative, mean latency +-1ns; zero-duration sets: Rate == Requests (pinned by the repo's own test), throughput only finite. Percentiles belong to C11.", "5/C10"),
+ "C11": ("exploration", "runtime monitor: order-statistics oracle on sorted latencies (rank window) over distribution families incl. adversarial gap-at-the-quantile grids; hdrplot rows via lib and real CLI",
+         "3704 (quick) / 86788 (thorough) latency sets (n=1..1e5; uniform, log-normal, constant, few-valued, bimodal with huge gaps, zero-heavy; sorted/reversed/shuffled arrival; an adversarial grid that puts a value gap within +-3% of n of each quantile rank) are checked for min<=p50<=p90<=p95<=p99<=max, each percentile within the rank window of 1+1% of n (refuted only if outside under both 0- and 1-based rank conventions), all-equal data, and non-decreasing hdrplot rows (lib and real `vegeta report -type=hdrplot`).",
+         "The rank window is the weakest reading of the statement (either rank convention). Rank error is measured, maxima per family are in the evidence.", "5/C11"),
+ "C12": ("exploration", "runtime monitor: direct bucket-rule reference vs Histogram counts and text/JSON renderings incl. no-result case; bucket specs through UnmarshalText and the real CLI",
+         "5013 (quick) / 400023 (thorough) histograms (1..20 bounds; latencies on, 1ns below and 1ns above every bound; 203+ with no result added) and 2006 / 100006 textual bucket specifications (spacing, all units, compound values) are checked: Counts equal the reference vector, Total == sum == n, text and JSON renderings show exactly these counts (also empty), parsed bounds are preserved with a zero bound prepended iff the first is positive; same through `vegeta report -type=hist[...]` and `-type=json -buckets`.",
+         "Row/key order and the percentage/bar columns are not judged.", "5/C12"),
 }
 NOT_BUILT_REASON = "check not built yet in this revision (designed in DESIGN.md section 5; runtime monitoring applies)"
 ALL = ["C%02d" % i for i in range(1, 21)]
